@@ -58,7 +58,7 @@ Next ==
                ELSE IF ~Rec[i].cfg.enabled /\ "flush_threads" \in DOMAIN Rec[i].cfg /\ Rec[i].cfg.flush_threads # 0
                THEN A!Viol(a0, "C16", "flush-started-a-thread", Rec[i].cfg.flush_threads) ELSE a0
          r == Consume(a1, i + 1, Ch!ChanInit(IF "ring" \in DOMAIN Rec[i].cfg THEN Rec[i].cfg.ring ELSE 10240),
-                      Cl!CollInit(Rec[i].cfg.cancelable, A!Rng(Rec[i].cfg.foreign)))
+                      Cl!CollInit(Rec[i].cfg.cancelable, A!Rng(Rec[i].cfg.foreign), ~("free" \in DOMAIN Rec[i].cfg) \/ Rec[i].run <= 40))
          cdr == Cl!CollResult(r[4])
          v == r[1].viol
          dr == Ch!ChanResult(r[3]) IN
